@@ -182,6 +182,18 @@ func c10Run(c c10Case) (err error) {
 		if !reflect.DeepEqual(got, kept) {
 			return fmt.Errorf("construction %d: kept words %q, want %q (input %q)", pi, got, kept, in)
 		}
+		// the caller reuses its slice (scratch buffer for the next list): the
+		// word list already built must not follow it
+		for i := range in {
+			in[i] = fmt.Sprintf("reused-%d", i%3)
+		}
+		again, err := readKept(wl)
+		if err != nil {
+			return err
+		}
+		if !reflect.DeepEqual(again, kept) || int(wl.Size()) != len(kept) {
+			return fmt.Errorf("after the caller overwrote its own slice the word list holds %q (Size %d), it was built from %q", again, wl.Size(), snapshot)
+		}
 		if pi == 0 {
 			// atoms under capitalisation are kept words or their title forms
 			for _, scheme := range []spg.CapScheme{spg.CSAll, spg.CSRandom, spg.CSOne, spg.CSFirst} {
